@@ -71,13 +71,13 @@ EvConc ==
          finals == {ApplyPerm(doc, ops, p, 1) : p \in Perms(n)}
          mids == UNION {Prefixes(doc, ops, p, 1) : p \in Perms(n)}
          got == DocOf(Rec.doc)
-     IN /\ V({<<"ConcurrentFinalIsSequential", Rec.parses /\ got \in finals>>,
+     IN /\ V({<<"ConcurrentFinalIsSequential", (Rec.parses \/ (~exists /\ ~Rec.written)) /\ (Rec.parses => got \in finals)>>,
               <<"ConcurrentGetsExplained",
                   \A i \in 1..n : ops[i].op = "get" =>
                       \E d \in mids : CredRec(ops[i].got) \in GetSet(d, ops[i].addr, host)>>,
-              <<"OwnerOnly", Rec.mode = "600">>})
+              <<"OwnerOnly", Rec.written => Rec.mode = "600">>})
         /\ doc' = got
-  /\ exists' = TRUE /\ UNCHANGED host
+  /\ exists' = (exists \/ Rec.written) /\ UNCHANGED host
 
 \* after a kill before the k-th system call of a Put / Delete
 EvCrash ==
